@@ -20,7 +20,7 @@ import asyncio
 import itertools
 
 from .. import treecheck, treefam
-from ..collect import sig_of
+from ..collect import guarded, sig_of
 from ..loops import run
 
 PROPERTY = "C04"
@@ -180,7 +180,7 @@ def judge(case: dict, col) -> None:  # noqa: ANN001
     if case.get("t") == "foreign":
         judge_foreign(case, col)
     else:
-        treecheck.judge(PROPERTY, case, col)
+        guarded(col, case, treecheck.judge, PROPERTY, case, col)
 
 
 def shards(tier: str, seed: int) -> list[dict]:
@@ -190,11 +190,11 @@ def shards(tier: str, seed: int) -> list[dict]:
 def run_shard(desc: dict, col) -> None:  # noqa: ANN001
     for i, case in enumerate(all_cases(desc["tier"], desc["seed"])):
         if i % desc["of"] == desc["shard"]:
-            judge(case, col)
+            guarded(col, case, judge, case, col)
 
 
 def replay(case: dict, col) -> None:  # noqa: ANN001
-    judge(case, col)
+    guarded(col, case, judge, case, col)
 
 
 def finish(col, tier: str) -> None:  # noqa: ANN001
